@@ -262,7 +262,7 @@ func RegisterVKV(m contract.Manager) {
 
 // vkvRun interprets args["prog"]: statements separated by ';':
 //
-//	get k | put k v | del k | sel a b | xfer TO AMT | call PROG(with , as separator) | fail | gas N
+//	get k | put k v | del k | sel a b | cp SRC DST | cnt K a b | xfer TO AMT | call PROG(with , as separator) | fail | gas N
 //
 // The response body is the concatenated observations.
 func vkvRun(ctx contract.KContext) (*contract.Response, error) {
@@ -296,12 +296,49 @@ func vkvRun(ctx contract.KContext) (*contract.Response, error) {
 			if err := ctx.Del(bucket, []byte(f[1])); err != nil {
 				return nil, err
 			}
-		case "sel":
+		case "cp": // cp SRC DST: what was read decides what is written
+			v, err := ctx.Get(bucket, []byte(f[1]))
+			if err != nil {
+				v = []byte("<nil>")
+			}
+			if err := ctx.Put(bucket, []byte(f[2]), append([]byte("cp:"), v...)); err != nil {
+				return nil, err
+			}
+		case "cnt": // cnt K a b: K := number and keys of the rows of [a, b)
 			var a, b []byte
-			if f[1] != "-" {
+			if f[2] == "''" {
+				a = []byte{}
+			} else if f[2] != "-" {
+				a = []byte(f[2])
+			}
+			if f[3] == "''" {
+				b = []byte{}
+			} else if f[3] != "-" {
+				b = []byte(f[3])
+			}
+			it, err := ctx.Select(bucket, a, b)
+			if err != nil {
+				return nil, err
+			}
+			n, keys := 0, ""
+			for it.Next() {
+				n++
+				keys += string(it.Key()) + ","
+			}
+			it.Close()
+			if err := ctx.Put(bucket, []byte(f[1]), []byte(fmt.Sprintf("%d:%s", n, keys))); err != nil {
+				return nil, err
+			}
+		case "sel":
+			var a, b []byte // "-" = nil bound, "''" = empty but present bound
+			if f[1] == "''" {
+				a = []byte{}
+			} else if f[1] != "-" {
 				a = []byte(f[1])
 			}
-			if f[2] != "-" {
+			if f[2] == "''" {
+				b = []byte{}
+			} else if f[2] != "-" {
 				b = []byte(f[2])
 			}
 			it, err := ctx.Select(bucket, a, b)
